@@ -12,6 +12,7 @@ import Rsdns.Model.RecordSet
 import Rsdns.Model.NameText
 import Rsdns.Model.Client
 import Rsdns.Model.Pass
+import Rsdns.Model.Config
 
 namespace Rsdns.Driver
 
@@ -817,6 +818,57 @@ def answerClient (toks : List String) : String :=
       let (st, _) := qs.foldl step ({ queue := [], prevId := 0, outs := [] }, 0)
       String.intercalate " | " st.outs.reverse
 
+/-! ### `cfg`: builder sequences on `ClientConfig` -/
+
+def parseAddr (s : String) : Option Addr :=
+  match s.splitOn "-" with
+  | [f, ip, port] =>
+    match ip.toNat?, port.toNat? with
+    | some i, some p =>
+      if f == "4" then some { v6 := false, ip := i, port := p }
+      else if f == "6" then some { v6 := true, ip := i, port := p }
+      else none
+    | _, _ => none
+  | _ => none
+
+def showAddr (a : Addr) : String := s!"{if a.v6 then "6" else "4"}-{a.ip}-{a.port}"
+
+def parseCfgCtor (s : String) : Option Config :=
+  if s == "new" then some Config.new
+  else match s.splitOn ":" with
+    | ["with", a] => (parseAddr a).map Config.withNameserver
+    | _ => none
+
+def parseCfgOp (s : String) : Option CfgOp :=
+  match s.splitOn ":" with
+  | ["ns", a] => (parseAddr a).map CfgOp.setNs
+  | ["bind", a] => (parseAddr a).map CfgOp.setBind
+  | ["lt", n] => n.toNat?.map CfgOp.setLt
+  | ["qt", n] => if n == "none" then some (.setQt none) else n.toNat?.map (fun k => CfgOp.setQt (some k))
+  | ["st", n] => match n.toNat? with
+    | some k => if k < 3 then some (.setStrat k) else none
+    | none => none
+  | ["rd", n] => if n == "1" then some (.setRd true) else if n == "0" then some (.setRd false) else none
+  | ["buf", n] => n.toNat?.map CfgOp.setBuf
+  | ["edns", e] =>
+    if e == "off" then some (.setEdns none)
+    else match e.splitOn "-" with
+      | [v, p] => match v.toNat?, p.toNat? with
+        | some v, some p => if v < 256 ∧ p < 65536 then some (.setEdns (some (v, p))) else none
+        | _, _ => none
+      | _ => none
+  | _ => none
+
+def showConfig (c : Config) : String :=
+  let qt := match c.qt with | some n => toString n | none => "none"
+  let ed := match c.edns with | some (v, p) => s!"{v}-{p}" | none => "off"
+  s!"ns={showAddr c.ns} bind={showAddr c.bind} lt={c.lt} qt={qt} st={c.strat} rd={b01 c.rd} buf={c.buf} edns={ed} has={b01 c.hasNameserver}"
+
+def answerCfg (ctor : String) (ops : List String) : String :=
+  match parseCfgCtor ctor, ops.mapM parseCfgOp with
+  | some c0, some os => showConfig (c0.build os)
+  | _, _ => "bad-request"
+
 /-- the public text APIs take `&str`: non-UTF-8 input cannot be expressed through them -/
 def isUtf8 (b : Bytes) : Bool := (String.fromUTF8? (ByteArray.mk b)).isSome
 
@@ -825,6 +877,11 @@ def answer (line : String) : String :=
   | ["name", mode, pos, hex] =>
     match pos.toNat?, parseHex hex with
     | some p, some msg => answerName mode p msg
+    | _, _ => "bad-request"
+  | ["names", pos, hex] =>
+    match pos.toNat?, parseHex hex with
+    | some p, some msg =>
+      String.intercalate " | " (["heap", "inline", "skip", "iter"].map (fun m => s!"{m}={answerName m p msg}"))
     | _, _ => "bad-request"
   | ["rdata", ty, pos, rdlen, hex] =>
     match rtypeOfString ty, pos.toNat?, rdlen.toNat?, parseHex hex with
@@ -964,6 +1021,7 @@ def answer (line : String) : String :=
           (writeQuery c 0 n t k (rd == "1") o)
       | none => "bad-request"
     | _, _, _, _ => "bad-request"
+  | "cfg" :: ctor :: ops => answerCfg ctor ops
   | _ => "bad-request"
 
 end Rsdns.Driver
